@@ -24,7 +24,7 @@ META = {
                    'equals the state before it and histories of any length behave like the explored ones; (e) the outputs with inputs requiring grad equal those without. '
                    'THREADS are not explored: the checked non-interference premises (calls write only freshly allocated tensors and read only arguments and immutable shared '
                    'state) imply schedule independence provided torch kernels and dict operations are thread-safe; real interleavings are outside this technique.',
-    'bounds': {'quick': {'pool': 13, 'sequences': 'all ordered pairs (156) + 12 triples'}, 'thorough': {'pool': 13, 'sequences': 'all ordered pairs + all triples ending in 4 targets'}},
+    'bounds': {'quick': {'pool': 14, 'sequences': 'all ordered pairs (156) + 12 triples'}, 'thorough': {'pool': 14, 'sequences': 'all ordered pairs + all triples ending in 4 targets'}},
     'outside': 'thread interleavings; sequences longer than 3 (covered only through the state-digest induction step); CUDA',
     'assumptions': ['real-arithmetic semantics', 'state reachable only through module globals, function attributes, class attributes and module buffers'],
 }
@@ -38,6 +38,7 @@ POOL = [
     dict(id='d2_db2_per', kind='dwt2f', wave='db2', mode='periodic', J=1, H=6, W=8, B=1, C=2),
     dict(id='d2_db2_sym_f32', kind='dwt2f', wave='db2', mode='symmetric', J=1, H=6, W=8, B=1, C=2, f32=True),
     dict(id='d2i_db2_zero', kind='dwt2i', wave='db2', mode='zero', J=1, H=6, W=8, B=1, C=2),
+    dict(id='d2_tuple4', kind='dwt2f', wave='db2', wave_row='bior1.3', mode='zero', J=1, H=6, W=8, B=1, C=1),
     dict(id='swt_db2', kind='swt', wave='db2', mode='periodization', J=1, H=4, W=8, B=1, C=2),
     dict(id='dtf_a', kind='dtf', biort='near_sym_a', qshift='qshift_a', J=2, H=6, W=8, B=1, C=1),
     dict(id='dtf_06', kind='dtf', biort='legall', qshift='qshift_06', J=2, H=6, W=8, B=1, C=1),
@@ -83,6 +84,10 @@ def _make_module(pw, c):
     prev = tt.get_default_dtype()
     try:
         tt.set_default_dtype(tt.float32 if c.get('f32') else tt.float64)
+        if c.get('wave_row'):
+            import pywt
+            wc = pywt.Wavelet(c['wave']); wr = pywt.Wavelet(c['wave_row'])
+            return pw.DWTForward(J=c['J'], wave=(np.array(wc.dec_lo), np.array(wc.dec_hi), np.array(wr.dec_lo), np.array(wr.dec_hi)), mode=c['mode'])
         return C07._module(pw, c)
     finally:
         tt.set_default_dtype(prev)
@@ -112,8 +117,11 @@ def _cast(tt, c, t):
     return t.float() if c.get('f32') else t
 
 
-def _sym_call(c, requires_grad=False):
+def _sym_call(c, requires_grad=False, nograd=False):
     """-> (outputs as object arrays, ids, purity report)"""
+    if nograd:
+        with symtorch.shim().no_grad():
+            return _sym_call(c, requires_grad=requires_grad)
     spw = symtorch.sym(); st = symtorch.shim()
     tens = []; ids = []
     for nm, s in _specs(c):
@@ -352,6 +360,37 @@ def run_config(cfg):
     elif go[0] == 'raise':
         res.status = 'violation'
         res.violations.append(dict(what='call raises %s when inputs require grad' % go[1], facts=dict(facts, autograd=True), replay=dict(kind='autograd'), reproduced=True))
+    # (e') autograd globally disabled (torch.no_grad())
+    if res.status == 'held':
+        core.begin()
+        with symtorch.symbolic():
+            no = core.outcome(lambda: _sym_call(target, nograd=True))
+        rt = symtorch.real_torch()
+        with rt.no_grad():
+            rno = core.outcome(lambda: _real_call(target, xs))
+        if no[0] == 'unsupported':
+            res.status = 'inconclusive'; res.notes.append('symbolic engine (no_grad): ' + no[1])
+        elif no[0] != rno[0]:
+            res.status = 'error'; res.trace = 'no_grad: symbolic outcome %r differs from real %r' % (no[:3], rno[:3])
+        elif no[0] == 'raise':
+            res.status = 'violation'
+            res.violations.append(dict(what='call raises %s under torch.no_grad()' % no[1], facts=dict(facts, autograd=True), replay=dict(kind='autograd'), reproduced=True))
+        else:
+            for k, (a, b) in enumerate(zip(outs, no[1][0])):
+                if a is None or b is None:
+                    continue
+                if tuple(a.shape) != tuple(b.shape):
+                    res.status = 'violation'
+                    res.violations.append(dict(what='output %d has shape %s under torch.no_grad(), %s otherwise' % (k, b.shape, a.shape), facts=dict(facts, autograd=True),
+                                               replay=dict(kind='autograd'), reproduced=tuple(rno[1][0][k].shape) != tuple(routs[k].shape)))
+                    break
+                sats = D.decide_bands(res, solver, [b], [list(a.reshape(-1))], tau, ['no_grad_vs_grad_%d' % k], max_sat=1)
+                if sats:
+                    diff = float(np.abs(rno[1][0][k] - routs[k]).max())
+                    res.status = 'violation'
+                    res.violations.append(dict(what='output %d differs under torch.no_grad() (by %.3g at the sample point)' % (k, diff), facts=dict(facts, autograd=True),
+                                               replay=dict(kind='autograd'), reproduced=diff > 1e-9))
+                    break
     res.stats = st
     return res
 
